@@ -168,7 +168,7 @@ PROPS = {
                    '7x7 bonus matrix regenerated from /repo on every run equal the documented values / the model, and that '
                    'bonusFor obeys the documented rules for all class pairs and all scheme values; for every line, range and '
                    'term, the scoring walk (calculateScore) on a range in which every position matches returns the documented '
-                   'score of that occurrence (a function of line and range only), prefix and suffix terms are scored as the '
+                   'score of that occurrence (a function of line and range only), exact, prefix and suffix terms are scored as the '
                    'occurrence they report, and an occurrence of m characters scores between 16m+4(m-1) and 16m+10(m+1). '
                    'Scores are compared, per case, with refV2 (the recurrence evaluated over the whole line, no window, no slab, no fast path) and '
                    'with the documented alignment score of the reported occurrence.',
